@@ -171,7 +171,17 @@ func (p *Path) rtPanic(msg string) {
 }
 
 func (p *Path) unsupported(what string) {
-	panic(abortPath{"unsupported", what + " at " + p.where()})
+	panic(abortPath{"unsupported", what + " at " + p.where() + p.stackString()})
+}
+
+func (p *Path) stackString() string {
+	s := " via"
+	n := 0
+	for i := len(p.stack) - 1; i >= 0 && n < 6; i-- {
+		s += " <- " + p.stack[i].Name()
+		n++
+	}
+	return s
 }
 
 func (p *Path) step(instr ssa.Instruction) {
@@ -420,6 +430,8 @@ func (p *Path) callFunction(caller *frame, fn *ssa.Function, args []value, env [
 		p.res.Funcs[name] = true
 		p.res.mu.Unlock()
 	}
+	p.stack = append(p.stack, fn)
+	defer func() { p.stack = p.stack[:len(p.stack)-1] }()
 	p.depth++
 	if p.depth > 3000 {
 		panic(abortPath{"bound-exceeded", "Go call depth > 3000 at " + name})
